@@ -3,26 +3,25 @@ package remotecheck
 // Outstanding TLSA lookups (environment fact mx[i].slow).
 //
 // mx_auth.dane starts the TLSA lookup for an MX in a goroutine (PrepareConn) and
-// waits for it in CheckConn. Whether that lookup is still outstanding - possibly
-// not even running yet - when the client has already moved on to the next MX is
-// an environment / scheduler choice. A wrapper around the policy's delivery
-// object (it sees PrepareConn and CheckConn and can observe the lookup futures
-// through the export shim) and a gate in the scripted DNS server pin it down:
+// waits for it in CheckConn. Whether that lookup is still unanswered when the
+// client has already moved on to the next MX is an environment choice (DNS
+// latency). A wrapper around the policy's delivery object (it sees PrepareConn
+// and CheckConn and can observe the lookup futures through the export shim) and
+// a gate in the scripted DNS server decide it without sleeping:
 //
-//   - MX not slow: right after PrepareConn the wrapper waits until the lookup
-//     has delivered its result; the lookup is never outstanding when the client
-//     moves on.
-//   - MX j slow: the wrapper returns at once. If the client then reaches
-//     CheckConn for MX j it waits for the lookup itself. If it moves on, the
-//     wrapper, in PrepareConn for the next MX i, holds the DNS answers about MX i
+//   - MX not slow, nothing outstanding: right after PrepareConn the wrapper waits
+//     until the lookup has delivered its result; the lookup is never outstanding
+//     when the client moves on.
+//   - MX j slow: every DNS answer about MX j is held. It is released when the
+//     client itself starts waiting for it (CheckConn for MX j), or when the
+//     client has moved on, i.e. PrepareConn for the next MX i has returned from
+//     the policy. In the latter case the answers about MX i are held in turn
 //     until the lookup for MX j has stored its result SOMEWHERE - in its own
-//     future or in the one just created for MX i - and logs which
+//     future or in the one just created for MX i - and the wrapper logs which
 //     (event Lookup{mx: i, cross}); then the answers about MX i are released.
-//     Where the late result goes is decided by the code under test and the Go
-//     scheduler; the trace records it, the specification accepts "cross" only as
-//     the named deviation. Behaviours with a slow MX run with GOMAXPROCS(1), which
-//     makes the goroutine start late (after the client moved on) practically
-//     always; nothing depends on it but how often the deviation is exercised.
+//     Where the late result goes is decided by the code under test; the trace
+//     records it and the specification accepts cross = true only as the named
+//     deviation.
 //
 // No outcome depends on a timer; holdCap only bounds a wait that would mean the
 // harness logic itself is wrong (reported as a harness time-out, exit 2).
@@ -182,8 +181,10 @@ func isSet(f remote.VerifRemoteFuture) bool {
 func (d *daneDeliveryWrap) PrepareConn(ctx context.Context, mx string) {
 	i := mxOfName(strings.ToLower(mx))
 	outstanding := len(d.pending) > 0
-	if outstanding {
-		d.gate.hold(i) // this MX's own answers wait until the late ones have landed
+	if outstanding || d.gate.slow[i] {
+		// slow: the answers stay outstanding until the client waits for them or has moved on;
+		// outstanding: this MX's own answers wait until the late ones have landed
+		d.gate.hold(i)
 	}
 	d.inner.PrepareConn(ctx, mx)
 	fut := remote.VerifRemoteDANEFuture(d.inner)
@@ -196,12 +197,15 @@ func (d *daneDeliveryWrap) PrepareConn(ctx context.Context, mx string) {
 	if outstanding {
 		var futs []remote.VerifRemoteFuture
 		for j, f := range d.pending {
+			d.gate.release(j) // the client has moved on: the late answers arrive now
 			futs = append(futs, f)
 			delete(d.pending, j)
 		}
 		waitAny(cctx, append(futs, fut)...)
 		d.tr.Emit("Lookup", vtrace.Ev{"mx": i, "cross": isSet(fut)})
-		d.gate.release(i)
+		if !d.gate.slow[i] {
+			d.gate.release(i)
+		}
 	}
 	if d.gate.slow[i] {
 		d.pending[i] = fut // nobody waits for it unless CheckConn for this MX is reached
@@ -223,6 +227,7 @@ func (d *daneDeliveryWrap) CheckConn(ctx context.Context, ml module.MXLevel, tl 
 	i := mxOfName(strings.ToLower(mx))
 	// the client itself waits for this MX's lookup now
 	delete(d.pending, i)
+	d.gate.release(i)
 	return d.inner.CheckConn(ctx, ml, tl, domain, mx, st)
 }
 
